@@ -44,7 +44,8 @@ def gen_trace(seed, n_calls=45):
     evs = []
     gross = {}
     with ob.installed():
-        rig = BrokerRig(t0, quotes, fee, ob, printing=(seed % 4 == 3), ctor_funds=(seed % 3 == 1))       # a quarter of the traces with event printing ON
+        rig = BrokerRig(t0, quotes, fee, ob, printing=(seed % 4 == 3), ctor_funds=(seed % 3 == 1),
+                        ccy=["USD", "GBP", "USD", "EUR", "USD"][seed % 5])       # a quarter of the traces with event printing ON
         now = t0
         created = []
 
